@@ -13,6 +13,8 @@
                "peerT" / "peerI" (NFC-DEP+LLCP peer acting as target / initiator, answers k LLC exchanges,
                then releases) | "reader" (discovers our emulated Type 3 tag, sends k further commands, leaves)
                | "ioerror" / "unsupported" (the local device raises IOError / UnsupportedTargetError on discovery)
+               | "tagU" (a tag as in "tag", on a device that cannot listen: every listen_* raises
+               UnsupportedTargetError - a reader-only device, or a Type B card target)
      k         see env
      termAt    index of the terminate() poll that is the first to return true
    One action per observable step of the code (src/nfc/clf/__init__.py:501-659): every callback, every
@@ -37,7 +39,7 @@ CONSTANTS MaxOpts,     \* at most this many of rdwr/llcp/card are given (3 every
                        \* larger termAt, so only finite values are explored)
 
 Opt == {"rdwr", "llcp", "card"}
-Envs == {"nothing", "tag", "peerT", "peerI", "reader", "ioerror", "unsupported"}
+Envs == {"nothing", "tag", "tagU", "peerT", "peerI", "reader", "ioerror", "unsupported"}
 Roles == {"both", "initiator", "target"}
 StartupRes == {"keep", "drop", "wrong"}
 ObjOf(o) == CASE o = "rdwr" -> "tag" [] o = "llcp" -> "llc" [] o = "card" -> "emu"
@@ -207,12 +209,13 @@ Enter(p) == /\ Goto(p)
             /\ role' = IF p = "llcp_act" THEN FirstRole ELSE role
 
 DeviceFails == cfg.env \in {"ioerror", "unsupported"}
+ListenFails == DeviceFails \/ cfg.env = "tagU"       \* listen() ends in an exception
 Fail == /\ err' = TRUE /\ Goto("ret")
 
 -----------------------------------------------------------------------------
 \* reader/writer
 SenseRes == IF DeviceFails THEN cfg.env
-            ELSE IF cfg.env = "tag" /\ ~gone THEN "tag"
+            ELSE IF cfg.env \in {"tag", "tagU"} /\ ~gone THEN "tag"
             ELSE IF cfg.env = "peerT" /\ ~gone THEN "dep"
             ELSE "none"
 
@@ -286,7 +289,7 @@ NextRole == IF role = "target" /\ cfg.role = "both" THEN "initiator" ELSE ""
 
 LlcActivate ==
     /\ pc = "llcp_act"
-    /\ IF DeviceFails THEN Fail /\ UNCHANGED role
+    /\ IF DeviceFails \/ (ListenFails /\ role = "target") THEN Fail /\ UNCHANGED role
        ELSE IF ActOk THEN Goto("llcp_conn") /\ UNCHANGED <<err, role>>
        ELSE IF NextRole # "" THEN role' = NextRole /\ UNCHANGED <<pc, err>>
        ELSE Enter(AfterPhase("llcp")) /\ UNCHANGED err
@@ -336,7 +339,7 @@ RunEnd ==
 \* card emulation
 CardListen ==
     /\ pc = "card_listen"
-    /\ IF DeviceFails THEN Fail
+    /\ IF ListenFails THEN Fail
        ELSE IF cfg.env = "reader" /\ ~gone THEN Goto("card_disc") /\ UNCHANGED err
        ELSE Goto("poll") /\ UNCHANGED err
     /\ Step("Listen")
